@@ -26,6 +26,7 @@ def plan(tier, seed):
     specs = shards("docs", 3000 if q else 150000, 250 if q else 4000, seed)
     specs += shards("streams", 500 if q else 20000, 50 if q else 1000, seed)
     specs += shards("corpus", 1, 1, seed)
+    specs += [{"family": "cli", "seed": seed, "n": 1}]
     specs += [{"family": "thresholds", "seed": seed, "n": 1, "part": k, "parts": 8, "tier": tier} for k in range(8)]
     return specs
 
@@ -164,6 +165,56 @@ def check_custom_generator(text, shape, M, case):
         M.violation("G6.unique", {"what": "an id was handed out twice (caller-supplied generator)", "shape": shape}, case)
 
 
+def run_cli(seed, M):
+    """Several files on one scripts/generate_events.py command line are one stream: ids distinct across the whole output,
+    dense when every file is accepted, and equal to what one in-process GherkinEvents yields."""
+    import json
+    import os
+    import subprocess
+    import sys
+    from ..common import PY_ROOT
+    from gherkin.stream.source_events import source_event
+    r = rng(seed, ID, "cli")
+    paths = []
+    for k in range(5):
+        text = make_source(r) if k != 2 else "Feature: rejected\n  junk\n"
+        try:
+            data = text.encode("utf8")
+        except UnicodeEncodeError:
+            data = b"Feature: f\n  Scenario: s\n    Given x\n"
+        p = os.path.abspath("cli%d.feature" % k)
+        with open(p, "wb") as f:
+            f.write(data)
+        paths.append(p)
+    env = dict(os.environ, PYTHONPATH=PY_ROOT, PYTHONDONTWRITEBYTECODE="1", PYTHONIOENCODING="utf-8")
+    for flags, opts in (([], (True, True, True)), (["--no-source"], (False, True, True))):
+        pr = subprocess.run([sys.executable, "-B", "-m", "scripts.generate_events"] + flags + paths, cwd=PY_ROOT, env=env, capture_output=True, timeout=300)
+        M.count("cli_runs")
+        M.case(h64(["cli", flags]))
+        case = {"kind": "cli"}
+        if pr.returncode != 0:
+            M.violation("C11.cli", {"what": "scripts.generate_events failed", "stderr": pr.stderr.decode("utf8", "replace")[-300:]}, case)
+            continue
+        got = [json.loads(l) for l in pr.stdout.decode("utf8").split("\n") if l.strip()]
+        ids = []
+        for e in got:
+            if "source" not in e:
+                ids += all_ids(e)
+        M.count("ids_checked", len(ids))
+        if len(set(ids)) != len(ids):
+            dup = sorted({i for i in ids if ids.count(i) > 1}, key=lambda x: int(x) if x.isdigit() else -1)[:6]
+            M.violation("C11.cli", {"what": "ids are not pairwise distinct across the files of one generate_events run", "duplicates": dup, "files": len(paths)}, case)
+            continue
+        ge = GherkinEvents(GherkinEvents.Options(*opts))
+        want = []
+        for p in paths:
+            want += list(ge.enum(source_event(p)))
+        if got != json.loads(json.dumps(want)):
+            M.violation("C11.cli", {"what": "generate_events output differs from one in-process stream over the same files (running id counter)"}, case)
+    for p in paths:
+        os.remove(p)
+
+
 def shift(o, off):
     if isinstance(o, dict):
         return {k: (str(int(v) + off) if k in ("id", "astNodeId") else
@@ -232,6 +283,8 @@ def run_shard(spec, M):
                 check_custom_generator(R.text, shape, M, {"kind": "customgen", "text": R.text, "shape": list(shape)})
             if i % 499 == 0:
                 M.sample({"text": short(R.text, 300)})
+    elif fam == "cli":
+        run_cli(seed, M)
     elif fam == "thresholds":
         from .. import thresholds
         for dim, n in thresholds.cases(spec["tier"], spec["part"], spec["parts"]):
@@ -252,6 +305,9 @@ def run_shard(spec, M):
 
 
 def replay(case, M):
+    if case.get("kind") == "cli":
+        run_cli(0, M)
+        return
     if case.get("kind") == "customgen":
         check_custom_generator(case["text"], tuple(case["shape"]), M, case)
         return
